@@ -1,7 +1,10 @@
 """C16 -- XML reading is total, memory-safe and faithful on its supported subset.
 Tie B: hand-written Gallina model of the recursive-descent reader (coq/C16/Model.v) with the
-theorems parse_total / parse_in_bounds / parse_render (coq/C16/Properties.v); correspondence =
-extracted model vs the real rkcommon::xml::readXML (ASan+UBSan) on the same files."""
+theorems parse_total / parse_no_hang / parse_in_bounds / parse_cursor_final / parse_render /
+props_sorted / props_last_wins (coq/C16/Properties.v); correspondence = extracted model vs the real
+rkcommon::xml::readXML (ASan+UBSan, 3 s watchdog per file) on the same files.  The rendered
+documents are produced by the extracted Coq function Render.render_doc from laid-out documents
+inside Render.wf_doc (= the premise of parse_render) and compared with the extracted Render.doc_of."""
 import ast, json, os, sys
 import vlib
 
@@ -70,6 +73,86 @@ def expect_node(n):
 
 def expect_doc(d):
     return "(- {} - [%s])" % " ".join(expect_node(it[1]) for it in d["items"] if it[0] == "n")
+
+
+# serialisation of a laid-out document for the extracted Coq functions (ocaml/C16/driver.ml, mode
+# "render"): the bytes fed to readXML are Render.render_doc of the Coq definition, the expected
+# tree is Render.doc_of, and Render.wf_doc says whether the document is in parse_render's premise
+def ser_props(props):
+    out = [str(len(props))]
+    for (k, w1, w2, q, v, w3) in props:
+        out += [hx(k), hx(w1), hx(w2), "D" if q == b'"' else "S", hx(v), hx(w3)]
+    return out
+
+
+def ser_items(items):
+    out = []
+    for it in items:
+        if it[0] == "n":
+            out += ["n"] + ser_node(it[1]) + [hx(it[2])]
+        else:
+            out += [it[0], hx(it[1]), hx(it[2])]
+    return out + ["."]
+
+
+def ser_node(n):
+    if n["form"] == "self":
+        return ["S", hx(n["name"]), hx(n["ws0"])] + ser_props(n["props"])
+    return ["O", hx(n["name"]), hx(n["ws0"])] + ser_props(n["props"]) + [hx(n["wbody"])] + ser_items(n["items"])
+
+
+def ser_doc(d):
+    h = d["header"]
+    out = ["H0"] if h is None else (["H1"] if h == "bare" else ["H2", hx(h[0]), hx(h[1])] + ser_props(h[2]))
+    return " ".join(out + [hx(d["ws"])] + ser_items(d["items"]))
+
+
+def features(d, f):
+    """histogram of the layout choices exercised"""
+    def bump(k):
+        f[k] = f.get(k, 0) + 1
+
+    def props(ps, where):
+        names = [p[0] for p in ps]
+        if len(set(names)) < len(names):
+            bump(where + "_duplicate_prop")
+        for (k, w1, w2, q, v, w3) in ps:
+            bump("quote_double" if q == b'"' else "quote_single")
+            if b"\\" in v:
+                bump("value_with_escape")
+            if not v:
+                bump("value_empty")
+
+    def node(n):
+        bump("node_" + n["form"])
+        props(n["props"], "node")
+        for it in n.get("items", []):
+            if it[0] == "n":
+                node(it[1])
+            elif it[0] == "c":
+                bump("comment_in_node")
+                if b"->" in it[1] or it[1].endswith(b"-"):
+                    bump("comment_with_dash_gt_or_trailing_dash")
+            else:
+                bump("text")
+                if it[2]:
+                    bump("text_with_trailing_space")
+                if any(c in b"\v\f" for c in it[2]):
+                    bump("text_trail_VT_FF")
+                if it[1][0] in b"\v\f":
+                    bump("text_starting_VT_FF")
+        if n["form"] == "open" and any(it[0] == "t" for it in n["items"]) and any(it[0] == "n" for it in n["items"]):
+            bump("node_with_text_and_children")
+
+    h = d["header"]
+    bump("header_none" if h is None else ("header_bare" if h == "bare" else "header_props"))
+    if h not in (None, "bare"):
+        props(h[2], "header")
+    for it in d["items"]:
+        if it[0] == "n":
+            node(it[1])
+        else:
+            bump("comment_top_level")
 
 
 # ------------------------------------------------------------------ generators
@@ -185,6 +268,15 @@ def g_doc(r, depth, maxfan):
     return {"header": h, "ws": g_ws(r), "items": items}
 
 
+def deep_doc(depth):
+    """a chain of nested nodes (the property bounds the nesting depth; native stack = partial)"""
+    n = {"name": b"z", "ws0": b"", "props": [], "form": "self", "wbody": b"", "items": []}
+    for k in range(depth):
+        n = {"name": b"a", "ws0": b"", "props": [], "form": "open", "wbody": b"",
+             "items": [("n", n, b"")] + ([("t", b"x", b"")] if k % 2 else [])}
+    return {"header": None, "ws": b"", "items": [("n", n, b"")]}
+
+
 def count_nodes(d):
     def cn(n):
         return 1 + sum(cn(it[1]) for it in n.get("items", []) if it[0] == "n")
@@ -217,15 +309,17 @@ def load_corpus(ctx):
 
 # ------------------------------------------------------------ running the harness
 def run_impl(ctx, exe, scratch, lines):
-    """Run all cases through one harness process; when a sanitizer report kills it, note the
-    killing case and continue after it in fork mode.  Returns (out_lines, crash_reports)."""
+    """Run all cases through one harness process; when a sanitizer report kills it (or the 3 s
+    watchdog fires: line HANG), note the killing case and continue after it in fork mode (at most
+    25 further abnormal cases are run, the rest is SKIPPED).  Returns (out_lines, crash_reports)."""
     out, reports = [], {}
     rc, o, err = ctx.run_exe(exe, [scratch], stdin="\n".join(lines) + "\n", timeout=1500)
     got = o.split("\n")[:-1] if o.endswith("\n") else [x for x in o.split("\n") if x]
     out += got[:len(lines)]
     if len(out) < len(lines):
-        n = len(out)
-        out.append("CRASH rc=%s" % rc)
+        if not (out and out[-1] == "HANG" and rc == 96):
+            out.append("CRASH rc=%s" % rc)
+        n = len(out) - 1
         reports[n] = err[-2500:]
         rest = lines[n + 1:]
         if rest:
@@ -246,6 +340,7 @@ def asan_summary(err):
 
 
 def run(ctx):
+    sys.setrecursionlimit(10000)
     ctx.coq_check(("Properties.v",))
     model = ctx.extract(snippets=["conv_N.ml"])
     exe = ctx.cxx(["harness.cpp"], "harness", repo_sources=REPO_SRC, sanitize="asan")
@@ -259,20 +354,45 @@ def run(ctx):
         il, rep = run_impl(ctx, exe, scratch, lines)
         rc, ml, _ = vlib.run_lines(ctx, model, [], lines)
         ctx.log("replay input=%r impl=%s model=%s" % (bytes.fromhex(lines[0]) if lines[0] != "-" else b"", il[0], ml[0]))
-        if il[0].startswith("CRASH") or il[0].startswith("THROW-OTHER") or il[0] != doc.get("required", il[0]):
+        if il[0].startswith("CRASH") or il[0] == "HANG" or il[0].startswith("THROW-OTHER") or il[0] != doc.get("required", il[0]):
             ctx.violation("replayed input still fails", {"input_hex": lines[0], "observed": il[0], "required": doc.get("required")})
         return
 
     r = ctx.rng("cases")
     cases = []          # (kind, bytes, expected_dump or None)
     # 1. random trees x random layouts (depth <= 5, fan-out <= 4)
+    #    The files and the expected trees come from the EXTRACTED Coq functions render_doc / doc_of
+    #    (theorem parse_render's premise and conclusion); python's own render/oracle must agree.
     ntree = ctx.pick(4000, 40000)
+    docs = []
     for i in range(ntree):
         d = g_doc(r, r.choice([0, 1, 1, 2, 2, 3, 4, 5]), r.choice([1, 2, 2, 3, 4]))
-        b = render_doc(d)
-        if len(b) > 1500:
+        if len(render_doc(d)) <= 1500:
+            docs.append(d)
+    for depth in (64, 200):
+        docs.append(deep_doc(depth))
+    ctx.cov["max_nesting_depth_exercised"] = 200
+    rc, rl, rerr = vlib.run_lines(ctx, model, ["render"], [ser_doc(d) for d in docs], timeout=900)
+    if rc != 0 or len(rl) != len(docs):
+        ctx.broken.append("model driver (render) failed rc=%s lines=%d/%d %s" % (rc, len(rl), len(docs), rerr[-300:]))
+        return
+    feats = {}
+    for d, ln in zip(docs, rl):
+        parts = ln.split(" ", 2)
+        if len(parts) != 3 or parts[0] not in ("WF", "NOTWF"):
+            ctx.broken.append("render driver rejected a generated document: %s" % ln[:100])
             continue
-        cases.append(("tree", b, expect_doc(d), count_nodes(d)))
+        b = bytes.fromhex(parts[1]) if parts[1] != "-" else b""
+        if parts[0] != "WF":
+            ctx.broken.append("generated document is outside the subset of parse_render (wf_doc = false): %r" % b[:200])
+            continue
+        if b != render_doc(d) or parts[2] != expect_doc(d):
+            ctx.broken.append("python render/oracle disagree with Coq render_doc/doc_of on %r: %s vs %s"
+                              % (render_doc(d)[:200], parts[2][:120], expect_doc(d)[:120]))
+            continue
+        features(d, feats)
+        cases.append(("tree", b, parts[2], count_nodes(d)))
+    ctx.cov["layout_features"] = dict(sorted(feats.items()))
     # 2. every truncation and single-byte mutation of the corpus documents
     corpus = load_corpus(ctx)
     seen = set()
@@ -281,7 +401,7 @@ def run(ctx):
         cases.append(("corpus", doc, None, 0))
         ms = mutants(doc)
         if not ctx.thorough() and len(doc) > 70:
-            ms = [doc[:k] for k in range(len(doc))] + r.sample(ms[len(doc):], 600)
+            ms = [doc[:k] for k in range(len(doc))] + r.sample(ms[len(doc):], min(600, len(ms) - len(doc)))
         for m in ms:
             if m not in seen:
                 seen.add(m)
@@ -292,11 +412,27 @@ def run(ctx):
         d = g_doc(r, 2, 2)
         b = render_doc(d)
         if 10 <= len(b) <= 90:
-            for m in r.sample(mutants(b), ctx.pick(300, 1200)):
+            ms = mutants(b)
+            for m in r.sample(ms, min(len(ms), ctx.pick(300, 1200))):
                 if m not in seen:
                     seen.add(m)
                     cases.append(("mut", m, None, 0))
                     nmut += 1
+    # every truncation of many small rendered trees (the terminator reached inside a value of either
+    # quote style, right after an escape, inside a comment, a name, a close tag ...), also with a
+    # backslash or a NUL appended
+    ntrunc = 0
+    for i in range(ctx.pick(250, 2500)):
+        d = g_doc(r, r.choice([1, 2]), 2)
+        b = render_doc(d)
+        if not (8 <= len(b) <= 110):
+            continue
+        for k in range(1, len(b)):
+            for m in (b[:k], b[:k] + b"\\", b[:k] + b"\0" + b[k:]) if r.random() < 0.3 else (b[:k],):
+                if m not in seen:
+                    seen.add(m)
+                    cases.append(("trunc", m, None, 0))
+                    ntrunc += 1
     # 3. random bytes over the mutation alphabet
     nrand = ctx.pick(3000, 30000)
     alpha = b"".join(MUT_ALPHABET) + b"<<>>/\"'=ab  "
@@ -313,7 +449,7 @@ def run(ctx):
 
     hist = {}
     sizes = {}
-    crashes, others, tree_fail, mism = [], [], [], []
+    crashes, hangs, others, tree_fail, mism = [], [], [], [], []
     for i, ((kind, b, exp, nn), ml, il) in enumerate(zip(cases, mlines, ilines)):
         oc = "tree" if il.startswith("(") else il.split(":")[0].split(" ")[0]
         hist[kind + ":" + oc] = hist.get(kind + ":" + oc, 0) + 1
@@ -322,7 +458,11 @@ def run(ctx):
             ctx.nontriv(lines[i])
         elif kind != "tree" and il.startswith("(") and il.count("(") >= 3:
             ctx.nontriv(lines[i])          # a malformed/mutated file that still yields a tree with >= 2 nodes
-        if il.startswith("CRASH") or il.startswith("<no output"):
+        if il == "SKIPPED":
+            continue
+        if il == "HANG":
+            hangs.append(i)
+        elif il.startswith("CRASH") or il.startswith("<no output"):
             crashes.append(i)
         elif not (il.startswith("(") or il == "THROW"):
             others.append(i)
@@ -337,12 +477,13 @@ def run(ctx):
     ctx.cov["outcome_histogram"] = hist
     ctx.cov["input_size_histogram"] = {str(k): v for k, v in sorted(sizes.items())}
     ctx.cov["case_mix"] = {"random_trees": sum(1 for c in cases if c[0] == "tree"), "corpus_docs": len(corpus),
-                           "mutants": nmut, "random_bytes": nrand}
+                           "mutants": nmut, "truncations_of_random_trees": ntrunc, "random_bytes": nrand}
     ctx.cov["mismatches"] = len(mism)
     ctx.cov["crashes"] = len(crashes)
     ctx.rule = ("files through the real readXML (one ASan+UBSan harness process) and the extracted model: random trees (depth<=5, fan-out<=4) "
-                "rendered with random layouts (header forms, both quote styles, escapes, self-closing/open-close, comments, all white characters, "
-                "trailing isspace characters) checked against the generating tree; every truncation and single-byte delete/insert/replace "
+                "rendered by the EXTRACTED Coq render_doc with random layouts (header forms, both quote styles, escapes, self-closing/open-close, "
+                "comments, all white characters, trailing isspace characters; all inside wf_doc, the premise of parse_render) checked against "
+                "the extracted doc_of; every truncation of 250 (thorough 2500) further rendered trees; every truncation and single-byte delete/insert/replace "
                 "(alphabet < > / \" ' = ! - ? \\ NUL space letter VT) of the corpus documents; random bytes over that alphabet. "
                 "non-trivial = rendered tree with >= 2 nodes, or malformed file that still yields >= 2 nodes")
     for i in (0, 1):
@@ -364,6 +505,9 @@ def run(ctx):
                           {"input_hex": lines[i], "input": repr(cases[i][1]), "observed": ilines[i], "sanitizer": e1[-2500:],
                            "required": mlines[i], "model_of_reader_as_found": old[n] if n < len(old) else None,
                            "crashing_files": len(crashes)})
+    for i in smallest(hangs)[:2]:
+        ctx.violation("readXML does not return (no result within 3 s; %d files)" % len(hangs),
+                      {"input_hex": lines[i], "input": repr(cases[i][1]), "observed": "HANG", "required": mlines[i]})
     for i in smallest(others)[:2]:
         ctx.violation("readXML left with something other than a document or std::runtime_error",
                       {"input_hex": lines[i], "input": repr(cases[i][1]), "observed": ilines[i], "required": mlines[i]})
@@ -374,7 +518,7 @@ def run(ctx):
                       {"input_hex": lines[i], "input": repr(cases[i][1]), "observed": ilines[i], "required": cases[i][2],
                        "model": mlines[i]})
     # model vs implementation where the property oracle has no objection
-    if mism and not (crashes or others or tree_fail):
+    if mism and not (crashes or hangs or others or tree_fail):
         for i in smallest(mism)[:3]:
             ctx.broken.append("correspondence C16 model vs readXML on %r: impl=%s model=%s (both outcomes allowed by the property)"
                               % (cases[i][1], ilines[i][:160], mlines[i][:160]))
